@@ -818,7 +818,8 @@ def _edit_histories(shard, nshards):
                 return "%s%d" % (prefix, cnt[0])
             for step in range(rng.randint(3, 10 if tier == "quick" else 16)):
                 op = rng.choice(["add_junction", "add_junction", "add_tank", "add_pipe", "add_pipe", "add_pump", "add_valve", "add_source", "add_control",
-                                 "remove_link", "remove_node", "remove_node_wc", "remove_curve", "remove_pattern", "reverse", "split", "remove_source", "self_loop"])
+                                 "remove_link", "remove_node", "remove_node_wc", "remove_curve", "remove_pattern", "reverse", "split", "remove_source", "self_loop",
+                                 "remove_newest_link", "remove_newest_link"])       # add-then-remove of every element kind is what exercises the typed subsets
                 before = None
                 try:
                     nl, ll = wn.node_name_list, wn.link_name_list
@@ -845,9 +846,11 @@ def _edit_histories(shard, nshards):
                         l = wn.get_link(rng.choice(ll))
                         act = wntr.network.controls.ControlAction(l, "status", 0)
                         wn.add_control(fresh("C"), wntr.network.controls.Control._time_control(wn, 3600, "SIM_TIME", False, act))
-                    elif op in ("remove_link", "remove_node", "remove_node_wc", "remove_curve", "remove_pattern", "remove_source"):
+                    elif op in ("remove_link", "remove_node", "remove_node_wc", "remove_curve", "remove_pattern", "remove_source", "remove_newest_link"):
                         before = (copy.deepcopy(wntr.network.to_dict(wn)))
-                        if op == "remove_link" and ll:
+                        if op == "remove_newest_link" and ll:
+                            wn.remove_link(ll[-1], with_control=True)
+                        elif op == "remove_link" and ll:
                             wn.remove_link(rng.choice(ll), with_control=rng.random() < 0.5)
                         elif op == "remove_node" and nl:
                             wn.remove_node(rng.choice(nl))
